@@ -54,3 +54,17 @@ package util
 //@   ensures result2 == nil ==> result0 != nil && result0.Block == block
 //@   ensures result2 == nil ==> !called(ExecTx) || ret1(ExecTx, 0) == nil || ret1(ExecTx, 1) == nil
 //@   loop 0 invariant true
+
+// ---- C13: collapsing duplicate keys is a function of the input sequence alone -------------------------
+// (no map is ranged over: the result cannot depend on map iteration order). The result holds pairwise
+// distinct keys, each at the position of its first occurrence among the distinct keys, and what is beyond
+// the processed prefix is untouched.
+//@ func DelDupKey [C13]
+//@   opt safety=assumed overflow=assumed
+//@   requires forall m :: 0 <= m && m < len(kvs) ==> kvs[m] != nil
+//@   ensures len(result) <= len(kvs) && sarr(result) == sarr(kvs) && soff(result) == soff(kvs)
+//@   ensures forall a :: forall b :: 0 <= a && a < b && b < len(result) ==> bytes(result[a].Key) != bytes(result[b].Key)
+//@   loop 0 invariant 0 <= n && n <= rangeindex + 1 && rangeindex >= -1 && !isnil(dupindex)
+//@   loop 0 invariant forall k Bytes :: has(dupindex, k) ==> 0 <= dupindex[k] && dupindex[k] < n && kvs[dupindex[k]] != nil && bytes(kvs[dupindex[k]].Key) == k
+//@   loop 0 invariant forall j :: 0 <= j && j < n ==> kvs[j] != nil && has(dupindex, bytes(kvs[j].Key)) && dupindex[bytes(kvs[j].Key)] == j
+//@   loop 0 invariant forall m :: rangeindex < m && m < len(kvs) ==> kvs[m] == old(kvs[m])
